@@ -8,6 +8,6 @@ trap 'rm -rf "$SCR" /verif/replays/$P' EXIT
 git -C /repo archive ${SEED_REV:-HEAD} | tar -x -C "$SCR"
 ( cd "$SCR" && patch -p1 -s < "$PATCH" ) || { echo "PATCH DOES NOT APPLY"; exit 3; }
 echo "applied $(grep -c '^+++' "$PATCH") file(s) to $SCR"
-cd /verif && ${GOVC:-./bin/govc} check -prop $P -repo "$SCR" -verif /verif -no-evidence 2>&1 | grep -E "^FAILED|^govc:|KNOWN|^VIOLATION" | cut -c1-260 | tail -6
+cd /verif && VERIF_DROP_SMT=1 ${GOVC:-./bin/govc} check -prop $P -repo "$SCR" -verif /verif -no-evidence 2>&1 | grep -E "^FAILED|^govc:|KNOWN|^VIOLATION" | cut -c1-260 | tail -6
 [ "$P" = "C18" ] && VERIF_REPO="$SCR" VERIF_NO_EVIDENCE=1 tools/bounded_c18.sh quick 2>&1 | grep -E "^bounded|^VIOLATION" | cut -c1-260
 exit 0
